@@ -10,6 +10,12 @@
 //! RemoveDiscountPrice; the attached whitelist's window and price as instantiated; governance's
 //! airdrop price and fee rates from creation + sudo) and computes the price in force from the
 //! ledger and the clock (`Ledger::price_in_force`).  Monitors judge against that.
+//! TIERED whitelists (tiered-whitelist, -flex, -merkletree as the variant allows; 1..3 stages with
+//! their own prices, touching or with gaps, before / across / after the public start): the price
+//! in force is the price of the EARLIEST stage whose inclusive window [start, end] contains the
+//! block time (so the earlier stage still rules at the hand-over instant of touching stages);
+//! histories probe T-1 ns / T / T+1 ns of the stage edges with exact payments at every stage's
+//! price, the price in force +-1 and the exact one.
 //! Histories are generated *adaptively*: before every mint the generator computes the ledger
 //! price and sends exact payments for every OTHER price some principal set (list, discount,
 //! whitelist, what the minter itself reports if different; sometimes +-1), then the sweep
@@ -48,6 +54,13 @@ pub struct Case {
     /// whitelist window (start, end) in seconds after world creation; the minter starts at 3000
     #[serde(default = "default_wl_window")]
     pub wl_window: (u64, u64),
+    /// non-empty = a TIERED whitelist (tiered-whitelist, tiered-whitelist-flex on the flex variants) with
+    /// these stages (start, end in seconds after world creation, price) instead of the single window
+    #[serde(default)]
+    pub wl_stages: Vec<(u64, u64, u128)>,
+    /// the whitelist's denom differs from the sale's (legal at creation on the vending family)
+    #[serde(default)]
+    pub wl_other_denom: bool,
     pub ops: Vec<Op>,
 }
 fn default_wl_window() -> (u64, u64) {
@@ -66,14 +79,23 @@ fn cfg_of(c: &Case) -> SaleCfg {
     cfg.price = c.price;
     cfg.start_in_secs = 3000;
     cfg.payment_address = c.payment_address;
-    cfg.wl = if !c.wl {
-        WlKind::None
-    } else if VARIANTS[c.variant].flex {
-        WlKind::Flex
-    } else {
-        WlKind::Plain
+    let tiered = !c.wl_stages.is_empty();
+    cfg.wl = match (c.wl, VARIANTS[c.variant].flex, tiered) {
+        (false, _, _) => WlKind::None,
+        (true, true, false) => WlKind::Flex,
+        (true, false, false) => WlKind::Plain,
+        (true, true, true) => WlKind::TieredFlex,
+        (true, false, true) => WlKind::Tiered,
     };
-    cfg.wl_windows = vec![c.wl_window];
+    if tiered {
+        cfg.wl_windows = c.wl_stages.iter().map(|s| (s.0, s.1)).collect();
+        cfg.wl_stage_prices = c.wl_stages.iter().map(|s| s.2).collect();
+    } else {
+        cfg.wl_windows = vec![c.wl_window];
+    }
+    if c.wl_other_denom {
+        cfg.wl_denom = Some(if c.ibc { NATIVE.into() } else { IBC.into() });
+    }
     cfg.wl_price = c.wl_price;
     cfg.wl_limit = 20;
     cfg.wl_flex_count = 20;
@@ -137,14 +159,32 @@ struct Pre {
 /// price as instantiated), governance's airdrop price and fee rates (creation + sudo).  The price
 /// in force for a mint is computed from this and the clock:
 ///   airdrop (MintTo / MintFor)            -> governance's airdrop coin
-///   whitelist attached and start <= now < end -> the whitelist's price
+///   whitelist attached and active         -> the whitelist's price: plain / flex / merkle kinds are
+///                                            active for start <= now < end; tiered kinds have 1..3
+///                                            stages with their own price, and the stage in force is
+///                                            the EARLIEST stage whose inclusive window [start, end]
+///                                            contains now (so at the hand-over instant of touching
+///                                            stages the earlier stage still rules)
 ///   otherwise                             -> the discount if one is set, else the list price
 #[derive(Clone, Debug)]
 pub struct WlLedger {
-    pub start: u64,
-    pub end: u64,
-    pub price: u128,
+    pub tiered: bool,
+    /// (start, end, price) in absolute nanoseconds, as instantiated
+    pub stages: Vec<(u64, u64, u128)>,
     pub denom: String,
+}
+impl WlLedger {
+    pub fn single(tiered: bool, start: u64, end: u64, price: u128, denom: String) -> Self {
+        WlLedger { tiered, stages: vec![(start, end, price)], denom }
+    }
+    /// (stage index, price) of the stage in force at `now`, by the documented rule
+    pub fn active(&self, now: u64) -> Option<(usize, u128)> {
+        self.stages
+            .iter()
+            .enumerate()
+            .find(|(_, (s, e, _))| if self.tiered { *s <= now && now <= *e } else { *s <= now && now < *e })
+            .map(|(i, st)| (i, st.2))
+    }
 }
 #[derive(Clone, Debug)]
 pub struct Ledger {
@@ -160,14 +200,17 @@ pub struct Ledger {
 }
 impl Ledger {
     pub fn wl_active(&self, now: u64) -> bool {
-        matches!(&self.wl, Some(w) if w.start <= now && now < w.end)
+        self.wl_stage(now).is_some()
+    }
+    pub fn wl_stage(&self, now: u64) -> Option<(usize, u128)> {
+        self.wl.as_ref().and_then(|w| w.active(now))
     }
     pub fn price_in_force(&self, airdrop: bool, now: u64) -> (u128, String) {
         if airdrop {
             return (self.airdrop_price, self.airdrop_denom.clone());
         }
-        match &self.wl {
-            Some(w) if w.start <= now && now < w.end => (w.price, w.denom.clone()),
+        match (&self.wl, self.wl_stage(now)) {
+            (Some(w), Some((_, price))) => (price, w.denom.clone()),
             _ => (self.discount.unwrap_or(self.list_price), self.denom.clone()),
         }
     }
@@ -178,6 +221,18 @@ impl Ledger {
             self.mint_fee_bps
         }
     }
+    /// the prices of the whitelist's stages that are NOT in force now
+    pub fn other_stage_prices(&self, now: u64) -> Vec<(u128, String)> {
+        let inforce = self.price_in_force(false, now);
+        let mut v: Vec<(u128, String)> = match &self.wl {
+            Some(w) => w.stages.iter().map(|st| (st.2, w.denom.clone())).collect(),
+            None => vec![],
+        };
+        v.retain(|c| *c != inforce);
+        v.sort();
+        v.dedup();
+        v
+    }
     /// every price some principal set that is NOT the one in force now: the amounts a minter that
     /// reads the wrong source would ask for
     pub fn other_candidates(&self, airdrop: bool, now: u64) -> Vec<(u128, String)> {
@@ -187,10 +242,10 @@ impl Ledger {
             v.push((d, self.denom.clone()));
         }
         if let Some(w) = &self.wl {
-            v.push((w.price, w.denom.clone()));
-        }
-        if !airdrop {
-            // (the airdrop price is a candidate for public mints only now and then: see `aimed_payments`)
+            // every stage's price: a minter (or whitelist) that selects the wrong stage would ask for one of them
+            for st in &w.stages {
+                v.push((st.2, w.denom.clone()));
+            }
         }
         v.retain(|c| *c != inforce);
         v.sort();
@@ -373,7 +428,16 @@ impl Driver {
             list_price: c.price,
             denom: denom.clone(),
             discount: None,
-            wl: if c.wl { Some(WlLedger { start: w.abs_time(c.wl_window.0, 0), end: w.abs_time(c.wl_window.1, 0), price: c.wl_price, denom }) } else { None },
+            wl: if c.wl {
+                let wl_denom: String = if c.wl_other_denom { other(&denom).to_string() } else { denom };
+                if c.wl_stages.is_empty() {
+                    Some(WlLedger::single(false, w.abs_time(c.wl_window.0, 0), w.abs_time(c.wl_window.1, 0), c.wl_price, wl_denom))
+                } else {
+                    Some(WlLedger { tiered: true, stages: c.wl_stages.iter().map(|s| (w.abs_time(s.0, 0), w.abs_time(s.1, 0), s.2)).collect(), denom: wl_denom })
+                }
+            } else {
+                None
+            },
             mint_fee_bps: c.mint_fee_bps,
             airdrop_price: c.airdrop_price,
             airdrop_denom: NATIVE.into(), // the vending factory's airdrop coin is always native
@@ -447,13 +511,15 @@ impl Driver {
                     self.ledger.airdrop_fee_bps = *b;
                 }
             }
-            Op::SetWhitelist { start_in, end_in, price, ibc, .. } => {
-                self.ledger.wl = Some(WlLedger {
-                    start: now + start_in * 1_000_000_000,
-                    end: now + end_in * 1_000_000_000,
-                    price: *price,
-                    denom: if *ibc { IBC.into() } else { NATIVE.into() },
-                })
+            Op::SetWhitelist { kind, start_in, end_in, price, ibc, .. } => {
+                // kinds 1 and 3 are the tiered ones (one stage, inclusive end)
+                self.ledger.wl = Some(WlLedger::single(
+                    *kind == 1 || *kind >= 3,
+                    now + start_in * 1_000_000_000,
+                    now + end_in * 1_000_000_000,
+                    *price,
+                    if *ibc { IBC.into() } else { NATIVE.into() },
+                ))
             }
             _ => {}
         }
@@ -715,6 +781,9 @@ fn gen_case(rng: &mut Rng, variant: usize, thorough: bool, lits: &[u128]) -> (Ca
         wl_price: *rng.pick(&[0u128, 1, min_price, price.saturating_sub(1).max(1), 60, 10001, BIG]),
         // the whitelist runs before the public start, across it, or long after it
         wl_window: *rng.pick(&[(1000u64, 2000u64), (1000, 2000), (4000, 60_000), (62_000, 100_000)]),
+        wl_stages: vec![],
+        // a whitelist in the other denom (legal at creation; the minter then charges that denom while it is active)
+        wl_other_denom: wl && rng.chance(1, 6),
         ops: vec![],
     };
     let mut d = match Driver::new(&c) {
@@ -802,12 +871,150 @@ fn gen_case(rng: &mut Rng, variant: usize, thorough: bool, lits: &[u128]) -> (Ca
     d.finish()
 }
 
+// ---------- tiered whitelists: per-stage prices, probes at every stage edge ----------
+/// stage windows in seconds after world creation (the public sale starts at 3000)
+fn stage_layouts() -> Vec<Vec<(u64, u64)>> {
+    vec![
+        vec![(4000, 4200), (4200, 4400), (4500, 4600)], // touching pair (hand-over at 4200), then a gap
+        vec![(4000, 4200), (4200, 4400)],               // touching pair
+        vec![(4000, 4100), (4200, 4300)],               // gap
+        vec![(4000, 4300)],                             // one stage
+        vec![(1000, 1200), (1200, 1400), (1400, 1600)], // all touching, before the public start
+        vec![(2900, 3100), (3100, 3300)],               // hand-over a while after the public start (3000)
+    ]
+}
+fn stage_edges(stages: &[(u64, u64, u128)]) -> Vec<u64> {
+    let mut v: Vec<u64> = stages.iter().flat_map(|s| [s.0, s.1]).collect();
+    v.sort();
+    v.dedup();
+    v
+}
+fn handover_edges(stages: &[(u64, u64, u128)]) -> Vec<u64> {
+    stages.windows(2).filter(|w| w[0].1 == w[1].0).map(|w| w[0].1).collect()
+}
+/// the edges a history probes: all of them, or the hand-over instants plus a few others
+fn probe_edges(rng: &mut Rng, stages: &[(u64, u64, u128)], full: bool) -> Vec<u64> {
+    let all = stage_edges(stages);
+    if full && all.len() > 3 {
+        return all;
+    }
+    if full {
+        return handover_edges(stages);
+    }
+    let mut v = handover_edges(stages);
+    for _ in 0..2 {
+        v.push(*rng.pick(&all));
+    }
+    v.sort();
+    v.dedup();
+    v
+}
+fn stage_prices(rng: &mut Rng, n: usize, floor: u128) -> Vec<u128> {
+    let p = (*rng.pick(&[1u128, 60, 60, 9999, 100_000_001])).max(floor);
+    // neighbours differ by 1 somewhere (so +-1 of one stage's price is another stage's price) and by more elsewhere
+    let mut v = vec![p, p + 20, p + 1];
+    if rng.chance(1, 2) {
+        v.swap(1, 2);
+    }
+    v.truncate(n);
+    v
+}
+
+/// at the current instant: exact payments for every other price some principal set (the list price, the
+/// discount, EVERY stage's price; now and then +-1), then the price in force -1 / +1, then exact
+fn probe_vending(d: &mut Driver, rng: &mut Rng, k: usize) {
+    let now = chain::now(&d.w.app);
+    let (price, dn) = d.ledger.price_in_force(false, now);
+    let who: &str = if d.ledger.wl_active(now) { [BUYERS[0], BUYERS[1]][k % 2] } else { [BUYERS[2], STRANGER, CREATOR][k % 3] };
+    // every other stage's price at every probe; the list price / discount as well at every third one
+    let others = if k % 3 == 1 { d.ledger.other_candidates(false, now) } else { d.ledger.other_stage_prices(now) };
+    let mut pays = aimed_payments(rng, &(price, dn.clone()), &others, d.reported_price(false));
+    if price > 1 {
+        pays.push(exact_payment(price - 1, &dn));
+    }
+    pays.push(exact_payment(price + 1, &dn));
+    pays.push(exact_payment(price, &dn));
+    for f in pays {
+        d.step(&Op::Mint { who: who.into(), funds: f });
+    }
+}
+fn probe_oe(d: &mut OeDriver, rng: &mut Rng, k: usize) {
+    let now = chain::now(&d.w.app);
+    let (price, dn) = d.ledger.price_in_force(false, now);
+    let who: &str = if d.ledger.wl_active(now) { [BUYERS[0], BUYERS[1]][k % 2] } else { [BUYERS[2], STRANGER, CREATOR][k % 3] };
+    // every other stage's price at every probe; the list price / discount as well at every third one
+    let others = if k % 3 == 1 { d.ledger.other_candidates(false, now) } else { d.ledger.other_stage_prices(now) };
+    let mut pays = aimed_payments(rng, &(price, dn.clone()), &others, d.reported_price(false));
+    if price > 1 {
+        pays.push(exact_payment(price - 1, &dn));
+    }
+    pays.push(exact_payment(price + 1, &dn));
+    pays.push(exact_payment(price, &dn));
+    for f in pays {
+        d.step(&OeOp::Mint { who: who.into(), funds: f });
+    }
+}
+
+/// a vending world with a tiered whitelist (tiered-whitelist; tiered-whitelist-flex on the flex variants):
+/// T-1 ns / T / T+1 ns of the chosen stage edges, a discount in force in the gaps
+fn gen_tiered(rng: &mut Rng, variant: usize, full: bool, layout: Option<usize>) -> (Case, CaseResult) {
+    let layouts = stage_layouts();
+    let lay = &layouts[layout.unwrap_or_else(|| rng.below(layouts.len() as u64) as usize)];
+    let prices = stage_prices(rng, lay.len(), 0);
+    let stages: Vec<(u64, u64, u128)> = lay.iter().zip(prices.iter()).map(|((s, e), p)| (*s, *e, *p)).collect();
+    let price = *rng.pick(&[100u128, 10001, 100_000_001]);
+    let c = Case {
+        variant,
+        ibc: rng.chance(1, 3),
+        min_price: 50,
+        price,
+        mint_fee_bps: *rng.pick(&[1000u64, 3333, 500, 10000, 0]),
+        airdrop_price: 0,
+        airdrop_fee_bps: 10000,
+        payment_address: rng.chance(1, 2),
+        wl: true,
+        wl_price: stages[0].2,
+        wl_window: (stages[0].0, stages[0].1),
+        wl_stages: stages.clone(),
+        wl_other_denom: !full && rng.chance(1, 5),
+        ops: vec![],
+    };
+    let mut d = match Driver::new(&c) {
+        Ok(d) => d,
+        Err(_) => {
+            let r = run_case(&c);
+            return (c, r);
+        }
+    };
+    let mut k = 0usize;
+    let mut discounted = false;
+    for t in probe_edges(rng, &stages, full) {
+        // once the public sale runs (3000) the creator sets a discount: the public price in the gaps
+        if !discounted && t > 3000 {
+            d.step(&Op::At { secs: 3050, nanos: 0 });
+            if full || rng.chance(2, 3) {
+                d.step(&Op::UpdateDiscountPrice { who: CREATOR.into(), price: price - 7 });
+            }
+            discounted = true;
+        }
+        for nanos in [-1i64, 0, 1] {
+            d.step(&Op::At { secs: t, nanos });
+            probe_vending(&mut d, rng, k);
+            k += 1;
+        }
+    }
+    let last = stages.iter().map(|s| s.1).max().unwrap();
+    d.step(&Op::At { secs: last.max(3000) + 100, nanos: 0 });
+    probe_vending(&mut d, rng, k);
+    d.finish()
+}
+
 // ---------- corpus ----------
 fn sudo(mint_fee_bps: Option<u64>, airdrop_price: Option<u128>, airdrop_fee_bps: Option<u64>) -> Op {
     Op::SudoParams { min_price: None, mint_fee_bps, airdrop_price, airdrop_fee_bps, offset: None, max_pal: None, shuffle_fee: None }
 }
 fn base_case(variant: usize) -> Case {
-    Case { variant, ibc: false, min_price: 50, price: 100, mint_fee_bps: 1000, airdrop_price: 0, airdrop_fee_bps: 10000, payment_address: false, wl: false, wl_price: 60, wl_window: (1000, 2000), ops: vec![] }
+    Case { variant, ibc: false, min_price: 50, price: 100, mint_fee_bps: 1000, airdrop_price: 0, airdrop_fee_bps: 10000, payment_address: false, wl: false, wl_price: 60, wl_window: (1000, 2000), wl_stages: vec![], wl_other_denom: false, ops: vec![] }
 }
 fn mint(who: &str, funds: Vec<(String, u128)>) -> Op {
     Op::Mint { who: who.into(), funds }
@@ -1209,7 +1416,13 @@ impl OeDriver {
             denom: cfg.fp.denom.clone(),
             discount: None, // open editions have no discount
             wl: if cfg.wl != OeWl::None {
-                Some(WlLedger { start: w.abs_time(cfg.wl_windows[0].0, 0), end: w.abs_time(cfg.wl_windows[0].1, 0), price: cfg.wl_price, denom: cfg.fp.denom.clone() })
+                let tiered = matches!(cfg.wl, OeWl::Tiered | OeWl::TieredFlex | OeWl::TieredMerkle);
+                let stages: Vec<(u64, u64, u128)> = if tiered {
+                    cfg.wl_windows.iter().enumerate().map(|(i, (s, e))| (w.abs_time(*s, 0), w.abs_time(*e, 0), cfg.wl_stage_prices.get(i).copied().unwrap_or(cfg.wl_price))).collect()
+                } else {
+                    vec![(w.abs_time(cfg.wl_windows[0].0, 0), w.abs_time(cfg.wl_windows[0].1, 0), cfg.wl_price)]
+                };
+                Some(WlLedger { tiered, stages, denom: cfg.fp.denom.clone() })
             } else {
                 None
             },
@@ -1263,12 +1476,14 @@ impl OeDriver {
             }
             OeOp::SetWhitelist { spare, .. } => {
                 if let Some(sp) = self.spares.get(*spare) {
-                    self.ledger.wl = Some(WlLedger {
-                        start: self.w.abs_time(sp.start_in, 0),
-                        end: self.w.abs_time(sp.end_in, 0),
-                        price: sp.price,
-                        denom: if sp.ibc { IBC.into() } else { NATIVE.into() },
-                    });
+                    let tiered = matches!(OeWl::from_u8(sp.kind), OeWl::Tiered | OeWl::TieredFlex | OeWl::TieredMerkle);
+                    self.ledger.wl = Some(WlLedger::single(
+                        tiered,
+                        self.w.abs_time(sp.start_in, 0),
+                        self.w.abs_time(sp.end_in, 0),
+                        sp.price,
+                        if sp.ibc { IBC.into() } else { NATIVE.into() },
+                    ));
                 }
             }
             _ => {}
@@ -1628,6 +1843,60 @@ fn gen_oe(rng: &mut Rng, variant: usize, thorough: bool, lits: &[u128]) -> (Case
     (Case2::Oe { cfg, ops }, r)
 }
 
+/// an open-edition world with a tiered whitelist of the kind the variant talks to (tiered-whitelist,
+/// tiered-whitelist-flex, tiered-whitelist-merkletree)
+fn gen_tiered_oe(rng: &mut Rng, variant: usize, full: bool, layout: Option<usize>) -> (Case2, CaseResult) {
+    let layouts = stage_layouts();
+    let lay = &layouts[layout.unwrap_or_else(|| rng.below(layouts.len() as u64) as usize)];
+    let mut cfg = oe_cfg(variant);
+    let v = OE_VARIANTS[variant];
+    cfg.wl = if v.flex {
+        OeWl::TieredFlex
+    } else if v.merkle {
+        OeWl::TieredMerkle
+    } else {
+        OeWl::Tiered
+    };
+    cfg.fp.min_price = 50;
+    cfg.fp.denom = if rng.chance(1, 3) { IBC.into() } else { NATIVE.into() };
+    cfg.fp.mint_fee_bps = *rng.pick(&[1000u64, 3333, 500, 10000, 0]);
+    cfg.price = *rng.pick(&[100u128, 10001, 100_000_001]);
+    cfg.payment_address = rng.chance(1, 2);
+    cfg.wl_windows = lay.clone();
+    cfg.wl_stage_prices = stage_prices(rng, lay.len(), 0);
+    cfg.wl_price = cfg.wl_stage_prices[0];
+    let stages: Vec<(u64, u64, u128)> = lay.iter().zip(cfg.wl_stage_prices.iter()).map(|((s, e), p)| (*s, *e, *p)).collect();
+    let mut d = match OeDriver::new(&cfg) {
+        Ok(d) => d,
+        Err(_) => {
+            let c = Case2::Oe { cfg, ops: vec![] };
+            let r = run_case2(&c);
+            return (c, r);
+        }
+    };
+    let mut k = 0usize;
+    let mut lowered = false;
+    for t in probe_edges(rng, &stages, full) {
+        if !lowered && t > 3000 {
+            d.step(&OeOp::At { secs: 3050, nanos: 0 });
+            if full || rng.chance(2, 3) {
+                d.step(&OeOp::UpdateMintPrice { who: CREATOR.into(), price: cfg.price - 7 });
+            }
+            lowered = true;
+        }
+        for nanos in [-1i64, 0, 1] {
+            d.step(&OeOp::At { secs: t, nanos });
+            probe_oe(&mut d, rng, k);
+            k += 1;
+        }
+    }
+    let last = stages.iter().map(|s| s.1).max().unwrap();
+    d.step(&OeOp::At { secs: last.max(3000) + 100, nanos: 0 });
+    probe_oe(&mut d, rng, k);
+    let (ops, r) = d.finish();
+    (Case2::Oe { cfg, ops }, r)
+}
+
 const URI: &str = "ipfs://bafybeigi3bwpvyvsmnbj46ra4hyffcxdeaj6ntfk5jpic5mx27x6ih2qvq/1.json";
 
 fn base_sweep(d: &mut BaseDriver, rng: &mut Rng, who: &str, n_wrong: usize, do_exact: bool) {
@@ -1948,15 +2217,40 @@ pub fn run(a: &Args) {
             let r = run_case2(&c);
             results.push((AnyCase::O(c), r));
         }
+        // curated tiered-whitelist worlds (fixed seed): every edge of the touching-pair-then-gap layout and of the
+        // hand-over-after-public-start layout, on every variant
+        let mut trng = Rng::new(20_260_214);
+        for variant in 0..6 {
+            for lay in [0usize, 5] {
+                let (c, r) = gen_tiered(&mut trng, variant, true, Some(lay));
+                results.push((AnyCase::V(c), r));
+            }
+        }
+        for variant in 0..3 {
+            for lay in [0usize, 5] {
+                let (c, r) = gen_tiered_oe(&mut trng, variant, true, Some(lay));
+                results.push((AnyCase::O(c), r));
+            }
+        }
+        for _ in 0..(if a.thorough() { 30 } else { 1 }) {
+            for variant in 0..6 {
+                let (c, r) = gen_tiered(&mut rng, variant, false, None);
+                results.push((AnyCase::V(c), r));
+            }
+            for variant in 0..3 {
+                let (c, r) = gen_tiered_oe(&mut rng, variant, false, None);
+                results.push((AnyCase::O(c), r));
+            }
+        }
         let lits = literals();
-        let per_variant = if a.thorough() { 100 } else { 10 };
+        let per_variant = if a.thorough() { 100 } else { 8 };
         for _ in 0..per_variant {
             for variant in 0..6 {
                 let (c, r) = gen_case(&mut rng, variant, a.thorough(), &lits);
                 results.push((AnyCase::V(c), r));
             }
         }
-        let per_oe = if a.thorough() { 80 } else { 8 };
+        let per_oe = if a.thorough() { 80 } else { 6 };
         for _ in 0..per_oe {
             for variant in 0..3 {
                 let (c, r) = gen_oe(&mut rng, variant, a.thorough(), &lits);
@@ -2032,7 +2326,7 @@ pub fn run(a: &Args) {
     balance_shards(&mut coq_cases, 6);
     balance_shards(&mut coq_cases2, 3);
     rep.distinct_nontrivial = distinct.len() as u64;
-    rep.rule = "sale worlds on each of the six vending minters, the three open-edition minters and the base minter, created through their factories with governance-chosen price / mint fee bps / airdrop price / airdrop fee bps (moved by sudo during the history), native or IBC denom, with/without payment address, optional whitelist with its own price and a window before / across / long after the public start, discount set/removed and price lowered after the start (vending), capped/uncapped (open edition); the price in force comes from the harness's own ledger of the principals' accepted operations and the clock (never from the minter's MintPrice answer); before every mint exact payments for every other candidate price (list, discount, whitelist, minter-reported) are sent, then the sweep price-1, price+1, wrong denom, two coins, nothing (a coin at price 0), exact is sent; evaluations = minter steps executed on the real contracts; distinct_nontrivial = distinct (variant, mint kind, price, denom, fee bps, seller) among SUCCESSFUL mints".into();
+    rep.rule = "sale worlds on each of the six vending minters, the three open-edition minters and the base minter, created through their factories with governance-chosen price / mint fee bps / airdrop price / airdrop fee bps (moved by sudo during the history), native or IBC denom, with/without payment address, optional whitelist with its own price and a window before / across / long after the public start, or a TIERED whitelist (1-3 stages with their own prices, touching or with gaps; price in force = the earliest stage whose inclusive window contains the block time; probes at T-1ns/T/T+1ns of the stage edges with payments at every stage's price and +-1), discount set/removed and price lowered after the start (vending), capped/uncapped (open edition); the price in force comes from the harness's own ledger of the principals' accepted operations and the clock (never from the minter's MintPrice answer); before every mint exact payments for every other candidate price (list, discount, whitelist, minter-reported) are sent, then the sweep price-1, price+1, wrong denom, two coins, nothing (a coin at price 0), exact is sent; evaluations = minter steps executed on the real contracts; distinct_nontrivial = distinct (variant, mint kind, price, denom, fee bps, seller) among SUCCESSFUL mints".into();
     if !coq_cases.is_empty() {
         out.write_cases("C02", "From LP Require Import Num Pay Sg1 Bank MinterVending SaleCorr.", "scase", "sale_check", &coq_cases, 6, &mut rep);
     }
